@@ -69,11 +69,39 @@ type Unit struct {
 	sliceConstLen map[string]int
 	usedInvs  map[string]bool
 	hparents  map[string][]string
+	qsorts    map[string]string
+	readLog   map[string]string
+	ospecDone map[string]bool
 }
 
 func (u *Unit) fact(f string) {
 	if f == "true" || f == "" {
 		return
+	}
+	if strings.Contains(f, "|q:") {
+		// side-effect facts produced while evaluating under a quantifier mention its bound variables:
+		// close them universally
+		var free []string
+		seen := map[string]bool{}
+		symbols(f, func(sy string) {
+			if strings.HasPrefix(sy, "|q:") && !seen[sy] {
+				seen[sy] = true
+				if !strings.Contains(f, "(("+sy+" ") && !strings.Contains(f, " ("+sy+" ") {
+					free = append(free, sy)
+				}
+			}
+		})
+		if len(free) > 0 {
+			var bs []string
+			for _, v := range free {
+				srt := u.qsorts[v]
+				if srt == "" {
+					return
+				}
+				bs = append(bs, fmt.Sprintf("(%s %s)", v, srt))
+			}
+			f = fmt.Sprintf("(forall (%s) %s)", strings.Join(bs, " "), f)
+		}
 	}
 	u.facts = append(u.facts, f)
 }
@@ -878,6 +906,7 @@ func (fr *Frame) unop(x *ssa.UnOp, st *State) *Val {
 	case token.MUL:
 		a := fr.derefBase(v, st, x.Pos(), "load")
 		t := u.loadAddr(st, a)
+		u.closedPre(a, x.Type())
 		res := fr.named(x, t, x.Type())
 		for _, f := range u.wfFacts(st, res.T, x.Type(), 0) {
 			u.fact(f)
